@@ -1,4 +1,4 @@
-"""C17 -- remaining class-level refactorings (narrow necessary conditions R17.1-R17.6)."""
+"""C17 -- remaining class-level refactorings (narrow necessary conditions R17.1-R17.7)."""
 from __future__ import annotations
 
 import ast
@@ -118,3 +118,23 @@ def check(ctx, res) -> None:
                 "class statement: a class defined inside a module-level if/try/with block gets the factory pasted into the middle of that block, so "
                 "the statements after it become dead code or the module stops parsing", function=gf.qualname)
     res.floor("R17.6", "column-0 factory templates", n6, 1)
+
+    # ---- R17.7 the generated method-object class must exist before module-level code after the function runs: it is
+    # inserted after the TOP-LEVEL DEFINITION that contains the function, so the climb through `.parent` stops below the
+    # module (its test names the module or the scope kind); a climb that only stops at `parent is None` ends at the module
+    # scope and puts the class at the end of the file.
+    ip = idx.need_func("rope.refactor.method_object.MethodObject._get_class_insertion_point")
+    climbs = [x for x in walk_local(ip.node) if isinstance(x, ast.While) and any(isinstance(y, ast.Attribute) and y.attr == "parent" for y in ast.walk(x.test))]
+    if not climbs:
+        res.undecided("R17.7", "_get_class_insertion_point|stops-below-module", ip.where, "no climb through .parent found")
+    for w in climbs:
+        t = w.test
+        names_module = any((isinstance(y, ast.Attribute) and y.attr in ("pymodule", "module")) or
+                           (isinstance(y, ast.Call) and call_name(y) in ("get_module", "get_kind")) for y in ast.walk(t))
+        only_none = any(isinstance(y, ast.Constant) and y.value is None for y in ast.walk(t)) or isinstance(t, ast.Attribute)
+        ok = names_module and not (only_none and not names_module)
+        res.add("R17.7", "_get_class_insertion_point|stops-below-module", ok, f"{ip.unit.rel}:{w.lineno}",
+                "the climb stops at the top-level definition that contains the function" if ok else
+                f"the climb `while {ast.unparse(t)}` only stops when there is no parent left, i.e. at the module scope: the new class is appended at the end "
+                "of the file, and module-level code between the function and the end of the file calls the rewritten function before the class exists (NameError on import)",
+                function=ip.qualname)
